@@ -27,10 +27,17 @@ _IR = {}
 _DRV = {}
 
 
+def _cleanup_at_exit(d):
+    import atexit
+    import shutil
+    atexit.register(shutil.rmtree, d, True)
+
+
 def ir():
     if "f" not in _IR:
         from vt import repo
-        d = tempfile.mkdtemp(prefix="vt-ir-")
+        d = tempfile.mkdtemp(prefix="vt-ir-", dir=os.environ.get("VT_SCRATCH") or None)
+        _cleanup_at_exit(d)
         ll = L.build_ir(os.path.join(repo.SPECPART_DIR, "specpart.c"), d)
         _IR["g"], _IR["f"] = L.parse(ll)
         _IR["dir"] = d
@@ -41,7 +48,8 @@ def driver():
     """Sanitizer build of the replay driver + the repository's specpart.c (once per process)."""
     if "exe" not in _DRV:
         from vt import repo
-        d = tempfile.mkdtemp(prefix="vt-drv-")
+        d = tempfile.mkdtemp(prefix="vt-drv-", dir=os.environ.get("VT_SCRATCH") or None)
+        _cleanup_at_exit(d)
         exe = os.path.join(d, "replay_specpart")
         src = os.path.join(os.path.dirname(L.__file__), "replay_specpart.c")
         subprocess.run(["clang", "-g", "-O1", "-w", "-fsanitize=address,undefined", "-fno-sanitize-recover=all", "-fno-omit-frame-pointer", "-I" + repo.SPECPART_DIR,
